@@ -1,13 +1,13 @@
 ---------------------------- MODULE MCExport ----------------------------
 (* Exhaustive enumeration of C09 cases over small abstract domains.  Every initial state is one
    one-step behaviour:
-     export : (local speaker, target peer with options, stored route)
+     export : (local speaker, target peer with options [, second target], stored route)
      inbound: (local speaker, sending peer, history of 1-2 announcements for one prefix)
    TLC (a) checks on every case that the code-shaped MECHANISM layer of Export.tla satisfies the
    PROPERTY layer (design level), and (b) prints the case as a JSON schedule for the Go replayer. *)
 EXTENDS Export, ExportDom, Json
 
-CONSTANTS Pool,      \* "path" | "attr" | "horizon" | "inbound"
+CONSTANTS Pool,      \* "path" | "attr" | "horizon" | "twice" | "inbound"
           Slice      \* "all" | "quick": the quick tier thins the largest pool (attr)
 
 VARIABLE beh
@@ -100,6 +100,34 @@ HorizonPool ==
          : loc \in {LPlain, LPlainX, LConfed}}
 
 ---------------------------------------------------------------------------
+(* pool "twice": the same stored route goes to two DIFFERENT peers one after the other (every other
+   export case is exported twice to the same peer).  Routes carry CLUSTER_LISTs of 1..3 foreign
+   ids, communities and AS_PATH segments whose slices have spare capacity in the harness, so a
+   rewrite that works in place on the stored attribute values shows in the second copy and in the
+   stored route. *)
+Exp2(loc, t, t2, r) == [mode |-> "export", local |-> loc, peer |-> t, peer2 |-> t2, route |-> r]
+
+TwicePairs(loc) ==
+  {<<Peer(a, loc), Peer(b, loc)>> :
+     a \in {"R1", "R2", "I1", "E1"} \cup (IF loc.confed THEN {"C1"} ELSE {}),
+     b \in {"R1", "R2", "I1", "E1"} \cup (IF loc.confed THEN {"C1"} ELSE {})}
+  \cup (IF loc.confed THEN {} ELSE {<<Opt(Peer("E1", loc), "replace", TRUE, 777), Peer("R1", loc)>>,
+                                     <<Opt(Peer("E1", loc), "all", FALSE, 0), Opt(Peer("E3", loc), "replace", FALSE, 0)>>})
+
+TwiceRoutes(loc) ==
+  {Route(Peer(s, loc), NhForm(1), TRUE,
+         (IF s = "E2" THEN <<Sg("SEQ", <<300, 64512>>)>> ELSE <<>>) \o tail, 0, 100, med, oi, cl, <<"N", "T">>, <<7, 8>>) :
+     s \in {"L", "E2", "I2", "R2"},
+     tail \in {<<>>, <<Sg("SEQ", <<600, 200>>), Sg("SET", <<64513, 9>>)>>},
+     med \in (IF Slice = "quick" THEN {50} ELSE {-1, 50}),
+     oi \in (IF Slice = "quick" THEN {"none"} ELSE {"none", "10.1.1.1"}),
+     cl \in {<<>>, <<"10.8.8.8">>, <<"10.8.8.8", "10.8.8.9">>, <<"10.8.8.8", "10.8.8.9", "10.8.8.10">>}}
+
+TwicePool ==
+  UNION {{Exp2(loc, pr[1], pr[2], r) : pr \in TwicePairs(loc), r \in TwiceRoutes(loc)}
+         : loc \in {LPlain, LPlainX, LConfed}}
+
+---------------------------------------------------------------------------
 (* pool "inbound": histories of announcements of one peer for one prefix *)
 
 InPeers(loc) ==
@@ -161,6 +189,7 @@ Behaviours ==
   CASE Pool = "path"    -> PathPool
     [] Pool = "attr"    -> AttrPool
     [] Pool = "horizon" -> HorizonPool
+    [] Pool = "twice"   -> TwicePool
     [] Pool = "inbound" -> InboundPool
 
 Init == beh \in Behaviours
@@ -172,19 +201,23 @@ Emit == PrintT("VPOUT " \o ToJson(beh))
 ---------------------------------------------------------------------------
 (* design level: mechanism => property, on every enumerated case *)
 
+Targets == {beh.peer} \cup (IF "peer2" \in DOMAIN beh THEN {beh.peer2} ELSE {})
+
 D_C09_MayAdvertise ==
   beh.mode = "export" =>
-    (MechAdvertise(beh.route, beh.peer, beh.local) = "yes" => MayAdvertise(beh.route, beh.peer, beh.local))
+    \A t \in Targets :
+      (MechAdvertise(beh.route, t, beh.local) = "yes" => MayAdvertise(beh.route, t, beh.local))
 
 D_C09_Attrs ==
   beh.mode = "export" =>
-    (MechAdvertise(beh.route, beh.peer, beh.local) = "yes" =>
-       AttrsConform(MechAttrs(beh.route, beh.peer, beh.local), beh.route, beh.peer, beh.local))
+    \A t \in Targets :
+      (MechAdvertise(beh.route, t, beh.local) = "yes" =>
+         AttrsConform(MechAttrs(beh.route, t, beh.local), beh.route, t, beh.local))
 
 (* the canonical copy of the property layer conforms to its own predicate (sanity of the layer) *)
 D_C09_Canonical ==
   beh.mode = "export" =>
-    AttrsConform(ExportAttrs(beh.route, beh.peer, beh.local), beh.route, beh.peer, beh.local)
+    \A t \in Targets : AttrsConform(ExportAttrs(beh.route, t, beh.local), beh.route, t, beh.local)
 
 (* the receive-side mechanism does not check CLUSTER_LIST (KF-C09-cluster-loop-used): the design
    check tolerates exactly that *)
